@@ -69,7 +69,7 @@ Definition excmds_at (m : mem) : Prop :=
   exists gblk, nth_error m G_excmds = Some gblk /\
   forall k ab nm, nth_error excmds_tab k = Some (ab, nm) ->
     exists ga gn, nth_error gblk (3 * k) = Some (VPtr ga 0) /\ nth_error gblk (3 * k + 1) = Some (VPtr gn 0) /\
-                  str_at m ga ab /\ str_at m gn nm.
+                  str_at m ga ab /\ str_at m gn nm /\ (ga < length cglobals)%nat /\ (gn < length cglobals)%nat.
 Definition names_nonul : Prop := Forall (fun e : bytes * bytes => nonul (fst e) /\ nonul (snd e)) excmds_tab.
 Lemma excmds_nonul : names_nonul.
 Proof. unfold names_nonul, excmds_tab. repeat (apply Forall_cons; [split; repeat (apply Forall_cons; [unfold byte_ok; lia|]); apply Forall_nil|]). apply Forall_nil. Qed.
@@ -96,7 +96,8 @@ Theorem excmds_at_globals m : globals_at m -> excmds_at m.
 Proof.
   intro G. exists gb_excmds. split; [apply G; reflexivity|]. intros k ab nm Hk.
   destruct (entries_ok_nth excmds_tab 0 k (ab, nm) excmds_entries Hk) as (ga & gn & H1 & H2 & H3 & H4).
-  exists ga, gn. cbn [Nat.add] in H1, H2. repeat split; try assumption; unfold str_at; apply G; assumption.
+  exists ga, gn. cbn [Nat.add] in H1, H2. repeat split; try assumption; try (unfold str_at; apply G; assumption);
+    apply nth_error_Some; congruence.
 Qed.
 
 (* ------------------------------------------------------------------ the loop *)
@@ -136,7 +137,7 @@ Proof.
     assert (Hk : nth_error excmds_tab i = Some (ab, nm)).
     { rewrite <- (firstn_skipn i excmds_tab) at 1. rewrite nth_error_app2 by (rewrite firstn_length; unfold NCMDS in Hlt; lia).
       rewrite firstn_length, Nat.min_l by (unfold NCMDS in Hlt; lia). rewrite Nat.sub_diag, Hsk. reflexivity. }
-    destruct (Htab i ab nm Hk) as (ga & gn & H1 & H2 & Sa & Sn).
+    destruct (Htab i ab nm Hk) as (ga & gn & H1 & H2 & Sa & Sn & _ & _).
     assert (Nab : nonul ab /\ nonul nm).
     { unfold names_nonul in Hnn. rewrite Forall_forall in Hnn. apply (Hnn (ab, nm)). eapply nth_error_In; exact Hk. }
     destruct Nab as [Nab Nnm].
